@@ -33,7 +33,7 @@ pub fn time_with_timezone(_: &SmartCalcConfig, _: &Tokinizer, fields: &BTreeMap<
         // To source timezone
         let timezone_offset = FixedOffset::east(current_offset.offset * 60);
         let date_with_timezone = timezone_offset.from_utc_datetime(&time);
-        let new_time = chrono::Local.from_local_datetime(&date_with_timezone.naive_local()).unwrap().naive_local();
+        let new_time = date_with_timezone.naive_local();
 
         // To target timezone
         let timezone_offset = FixedOffset::east(target_offset * 60);
